@@ -36,7 +36,8 @@ LEVEL_TEXT = ("Every single server behaviour of the matrix {status} x {content-t
               ' Also 307/308 answers with absolute-path and relative Location values, and SSE bodies holding non-UTF-8 bytes (a body without any message must not end in a result).'
               ' Also bursts in which two to five answers in a row carry no message (small real suspensions in the server), written by an application that reads only afterwards.'
               ' Also JSON bodies with a non-UTF-8 byte inside a string value under three spellings of the content type.'
-              ' Also answers that repeat the same notification several times in a row (JSON batch and SSE).')
+              ' Also answers that repeat the same notification several times in a row (JSON batch and SSE).'
+              ' Also SSE bodies with a broken message event between well-formed ones.')
 LEVEL_NOTE = ("Trusted: httpx.MockTransport delivers the scripted response as a real server would (thorough cross-checks "
               "with a raw asyncio loopback server incl. chunked encoding); vf/ref.py SSE parser. Where the statement is "
               "silent (JSON/SSE body under an unexpected content type, an unterminated last SSE event, event types other "
